@@ -539,3 +539,48 @@ Proof.
   rewrite <- (seq_length (length g) 0). apply NoDup_incl_length; [apply seq_NoDup|].
   intros x Hx. apply I. apply In_seq_lt. exact Hx.
 Qed.
+
+(** * Script generation comes first, in both modes *)
+Lemma evs_mark_failed_list l : forall s, evs (mark_failed_list l s) = evs s.
+Proof.
+  unfold mark_failed_list. induction l as [|a l IH]; intros s; cbn [fold_left]; [reflexivity|].
+  rewrite IH. reflexivity.
+Qed.
+
+Lemma evs_next_sub s : evs (snd (next_sub s)) = evs s.
+Proof. unfold next_sub. destruct (subs s); reflexivity. Qed.
+
+Lemma submit_attempts_main_events g x n : forall s,
+  exists new, evs (snd (submit_attempts g x false n s)) = new ++ evs s /\
+              forall e, In e new -> exists sc res, e = ESubmit x Main sc res.
+Proof.
+  induction n as [|n IH]; intros s.
+  - exists []. split; [reflexivity|intros e []].
+  - rewrite submit_attempts_S. cbv zeta.
+    set (s2 := if scheduled (attr g x) then rec_set_status x PENDING s
+               else rec_set_status x RUNNING (rec_set_status x PENDING s)).
+    assert (E2 : evs s2 = evs s) by (subst s2; destruct (scheduled (attr g x)); reflexivity).
+    pose proof (evs_next_sub s2) as E3.
+    destruct (fst (next_sub s2)).
+    + eexists [_]. cbn [snd emit evs set_evs rec_push_job set_recs set_next_job]. rewrite E3, E2.
+      split; [reflexivity|]. intros e [<-|[]]. eauto.
+    + destruct (IH (emit (ESubmit x Main (scheduled (attr g x)) None) (snd (next_sub s2)))) as (new & A & B).
+      exists (new ++ [ESubmit x Main (scheduled (attr g x)) None]). rewrite A. cbn [emit evs set_evs].
+      rewrite E3, E2, <- app_assoc. split; [reflexivity|].
+      intros e He. apply in_app_iff in He. destruct He as [He|[<-|[]]]; eauto.
+Qed.
+
+Lemma execute_record_gen_first c g x s :
+  exists new, evs (execute_record_gen c g x false s) = new ++ EGen x :: evs s /\
+              (forall y, ~ In (EGen y) new) /\ (dry c = true -> new = []).
+Proof.
+  unfold execute_record_gen. cbn [negb]. destruct (dry c).
+  - exists []. splits; auto.
+  - destruct (submit_attempts_main_events g x (attempts c) (emit (EGen x) s)) as (new & A & B).
+    destruct (submit_attempts g x false (attempts c) (emit (EGen x) s)) as [ok s1]. cbn [snd] in A.
+    exists new. splits; [| |discriminate].
+    + destruct ok.
+      * destruct (negb (scheduled (attr g x))); exact A.
+      * rewrite evs_mark_failed_list. exact A.
+    + intros y Hy. destruct (B _ Hy) as (sc & res & E). discriminate.
+Qed.
